@@ -99,6 +99,12 @@ func JudgeC15(c *Ctx, h *History, obs []*Obs) ([]Violation, error) {
 			c.Stats.Add("c15.skipped_ambiguous_or_defective", 1)
 			continue
 		}
+		if o.Exit != 0 && lacksPackageClause(o, effTags(g, h.World)) {
+			// known finding F9 (a stale output without package clause blocks the go tool):
+			// C16's and C09's subject, not a question of where output lands
+			c.Stats.Add("c15.skipped_blocked_by_stale_output_without_package_clause", 1)
+			continue
+		}
 		if o.Exit != 0 {
 			add("documented-layout-rejected", fmt.Sprintf("healthy converters in documented layouts, exit=%d: %s", o.Exit, trunc(o.Stderr, 400)))
 			continue
@@ -263,6 +269,16 @@ func c15Gen(rng *rand.Rand, spec *LSpec, w *World, env bool) Op {
 		if rng.IntN(2) == 0 {
 			g.Plan = planAll("perm", 0, rng.Uint64())
 		}
+		if rng.IntN(4) == 0 && len(spec.Convs) > 0 {
+			// invoked inside a package directory, as `//go:generate goverter gen .` does
+			sub := spec.Convs[rng.IntN(len(spec.Convs))].Dir
+			if sub != "" {
+				sp := spec.Clone()
+				sp.CwdDir = sub
+				g.Spec = sp
+				g.Cwd = "sub:" + sub
+			}
+		}
 	}
 	return genOp(g)
 }
@@ -318,7 +334,13 @@ func CheckC15(c *Ctx) (*Outcome, error) {
 				c.Stats.Add("c15.form_pkg_"+pf, 1)
 			}
 			c.Stats.Add(fmt.Sprintf("c15.umask_%03o", effUmask(g)), 1)
-			c.Stats.Add("c15.cwd_"+map[string]string{"": "chdir", "chdir": "chdir", "abs": "abs", "rel": "rel"}[g.Cwd], 1)
+			cw := g.Cwd
+			if strings.HasPrefix(cw, "sub:") {
+				cw = "package-dir"
+			} else if cw == "" {
+				cw = "chdir"
+			}
+			c.Stats.Add("c15.cwd_"+cw, 1)
 		}
 	}
 	mk := func(i int) ([]*History, error) {
